@@ -1,10 +1,23 @@
 """
-C20 -- Sequential models: behavioural oracles only (copy / deepcopy / dill; plain pickle of a Sequential raises
-PicklingError on its compiled functions, which is counted, not demanded).  RedVAR is not covered (see notes/C20.md).
+C20 -- Sequential and RedVAR models: operation histories with behavioural oracles (no Lean model of their object layout).
+
+Sequential: assign (all variants), assign through a temporary view (one variant), reorder_equations, sequentialize,
+set_description, alter_num_variants, copy, deepcopy / dill / save+load round trips, persistent views.
+RedVAR: estimate (random data, span, dof_correction, omit_missing, num_variants), alter_num_variants, copy,
+pickle / deepcopy / dill / save+load round trips, persistent views.
+
+Oracles after every op (public API only): the observables of every model of another copy family are unchanged (bit
+level); a fresh copy / round trip has the observables of its source (RedVAR: system matrices, eigenvalues, stability,
+mean, autocovariances, simulation, residuals returned by a re-estimate; Sequential: parameters, description, equation
+order, simulation); object-graph walk: no mutable object reachable from two models of different families, EXCEPT objects
+that no public operation can mutate (RedVAR: the invariant, which `RedVAR.copy` shares by design, and the cached
+`_companion_T` array, which is only ever rebound, and the immutable Period objects of `fitted_periods`) -- these are counted and listed in the evidence, and the
+mutate-and-observe oracle is what decides that sharing them is harmless.
 """
 from __future__ import annotations
 
 import copy as _copy
+import hashlib
 import pickle
 
 import numpy as np
@@ -14,73 +27,374 @@ import irispie as ir
 from .common import Ctx
 
 
-def gen_other_case(rng) -> dict:
-    return {"kind": "other", "c0": rng.choice([0.25, 0.5, 0.75]), "c1": rng.randint(-4, 4) / 2.0,
-            "c0_new": rng.choice([-0.5, 0.125]), "nv": rng.choice([1, 2, 3]), "via": rng.choice(["copy", "deepcopy", "dill"])}
+def _H():
+    from . import c20
+    return c20
 
 
-SRC = r"""
+def _digest(*arrays) -> str:
+    h = hashlib.sha256()
+    for a in arrays:
+        _H().canon_bytes(h, a)
+    return h.hexdigest()[:16]
+
+
+def _db_digest(db, names) -> str:
+    h = hashlib.sha256()
+    for n in names:
+        if n in db.keys():
+            s = db[n]
+            h.update(n.encode()); h.update(str(getattr(s, "start", None)).encode())
+            d = getattr(s, "data", None)
+            if d is not None:
+                h.update(str(d.shape).encode()); h.update(np.ascontiguousarray(d, dtype=float).tobytes())
+    return h.hexdigest()[:16]
+
+
+def _roundtrip(m, via):
+    return _H().roundtrip(m, via)
+
+
+# ---------------------------------------------------------------------------------------
+# Sequential
+# ---------------------------------------------------------------------------------------
+
+SEQ_SRC = r"""
 !parameters
-    c0, c1
+    c0, c1, c2
 !equations
+    z = y + c2;
     x = c0*x[-1] + c1;
     y = x + 0.5*y[-1];
+    w = z[-1] + x;
 """
+SEQ_NAMES = ("x", "y", "z", "w")
 
 
-def _sim(m):
+def seq_make():
+    m = ir.Sequential.from_string(SEQ_SRC)
+    m.assign(c0=0.5, c1=1.0, c2=0.25)
+    return m
+
+
+def seq_sim(m) -> str:
     d = ir.Databox()
     t0 = ir.qq(2020, 1)
-    d["x"] = ir.Series(start=t0 - 1, values=np.array([1.0]))
-    d["y"] = ir.Series(start=t0 - 1, values=np.array([1.0]))
-    s = m.simulate(d, t0 >> t0 + 5)
-    s = s[0] if isinstance(s, tuple) else s
-    return {n: np.ascontiguousarray(s[n].data, dtype=float).tobytes() for n in ("x", "y")}
+    for n in SEQ_NAMES:
+        d[n] = ir.Series(start=t0 - 1, values=np.array([1.0]))
+    try:
+        s = m.simulate(d, t0 >> t0 + 4, when_simulates_nan="silent")
+        s = s[0] if isinstance(s, tuple) else s
+        return _db_digest(s, SEQ_NAMES)
+    except Exception as e:
+        return "raises:" + type(e).__name__
 
 
-def _pars(m):
-    return repr(sorted((k, v) for k, v in m.get_parameters(unpack_singleton=False).items())) + "|" + str(m.get_description())
+def seq_pub(m) -> dict:
+    par = m.get_parameters(unpack_singleton=False)
+    return {"nv": m.num_variants, "desc": m.get_description(),
+            "params": tuple(sorted((k, tuple(repr(float(x)) for x in v)) for k, v in par.items())),
+            "order": tuple(m.lhs_names), "is_sequential": bool(m.is_sequential),
+            "equations": tuple(str(getattr(e, "human", e)) for e in m.equations), "sim": seq_sim(m)}
+
+
+def seq_gen_op(rng, handles):
+    h = rng.randint(0, len(handles) - 1)
+    m = handles[h]
+    nv = m.num_variants
+    can = len(handles) < 5
+    kind = rng.weighted([("assign", 4), ("vassign", 3), ("reorder", 2), ("sequentialize", 1.5), ("desc", 1), ("alter", 2),
+                         ("copy", 2 if can else 0), ("roundtrip", 2.5 if can else 0), ("view", 1.5 if can else 0)])
+    if kind == "assign":
+        return {"op": "assign", "h": h, "name": rng.choice(["c0", "c1", "c2"]), "x": rng.randint(-6, 6) / 8.0}
+    if kind == "vassign":
+        return {"op": "vassign", "h": h, "k": rng.randint(0, nv - 1), "name": rng.choice(["c0", "c1", "c2"]), "x": rng.randint(-6, 6) / 8.0}
+    if kind == "reorder":
+        return {"op": "reorder", "h": h, "perm": rng.shuffle([0, 1, 2, 3])}
+    if kind == "sequentialize":
+        return {"op": "sequentialize", "h": h}
+    if kind == "desc":
+        return {"op": "desc", "h": h, "s": "s" + str(rng.randint(0, 99))}
+    if kind == "alter":
+        return {"op": "alter", "h": h, "n": rng.choice([1, 2, 3, nv + 1])}
+    if kind == "copy":
+        return {"op": "copy", "h": h}
+    if kind == "roundtrip":
+        return {"op": "roundtrip", "h": h, "via": rng.weighted([("deepcopy", 3), ("dill", 3), ("saveload", 1), ("pickle", 1)])}
+    return {"op": "view", "h": h, "k": rng.randint(0, nv - 1)}
+
+
+def seq_apply(ctx, handles, fam, op):
+    m = handles[op["h"]]
+    k = op["op"]
+    if k == "assign":
+        m.assign(**{op["name"]: op["x"]})
+    elif k == "vassign":
+        m[op["k"]].assign(**{op["name"]: op["x"]})
+    elif k == "reorder":
+        m.reorder_equations(list(op["perm"]))
+    elif k == "sequentialize":
+        m.sequentialize()
+    elif k == "desc":
+        m.set_description(op["s"])
+    elif k == "alter":
+        m.alter_num_variants(op["n"])
+    elif k == "copy":
+        handles.append(m.copy()); fam.append(max(fam) + 1)
+    elif k == "roundtrip":
+        if op["via"] == "pickle":
+            try:
+                new = pickle.loads(pickle.dumps(m))
+            except Exception:
+                ctx.count("sequential_plain_pickle_raises")     # compiled functions; dill / save+load is the supported route
+                return
+            ctx.count("sequential_plain_pickle_ok")
+        else:
+            new = _roundtrip(m, op["via"])
+        handles.append(new); fam.append(max(fam) + 1)
+    elif k == "view":
+        handles.append(m[op["k"]]); fam.append(fam[op["h"]])
+
+
+# ---------------------------------------------------------------------------------------
+# RedVAR
+# ---------------------------------------------------------------------------------------
+
+T0 = None
+
+
+def t0():
+    global T0
+    if T0 is None:
+        T0 = ir.qq(2000, 1)
+    return T0
+
+
+def rv_data(case) -> "ir.Databox":
+    """deterministic data from the case: `nd` data sets (columns = data variants), dyadic innovations"""
+    H = _H()
+    from .common import Rng
+    rng = Rng(case["data_seed"])
+    n, T, ncol = case["n"], case["T"], case["ncol"]
+    db = ir.Databox()
+    cols = {f"y{i}": np.zeros((T, ncol)) for i in range(n)}
+    for c in range(ncol):
+        y = np.zeros((T, n))
+        for t in range(1, T):
+            for i in range(n):
+                y[t, i] = 0.5 * y[t - 1, i] + (0.25 * y[t - 1, (i + 1) % n] if n > 1 else 0.0) + 0.5 * (i + 1) + rng.randint(-16, 16) / 8.0
+        for i in range(n):
+            cols[f"y{i}"][:, c] = y[:, i]
+    for k, v in cols.items():
+        db[k] = ir.Series(start=t0(), values=v if ncol > 1 else v[:, 0].copy())
+    if case["exog"]:
+        g = np.array([[rng.randint(-8, 8) / 4.0 for _ in range(ncol)] for _ in range(T + 8)])
+        db["g"] = ir.Series(start=t0(), values=g if ncol > 1 else g[:, 0].copy())
+    if case.get("missing"):
+        db["y0"][t0() + 7] = float("nan")
+    return db
+
+
+def rv_make(case):
+    names = [f"y{i}" for i in range(case["n"])]
+    return ir.RedVAR(names, exogenous_names=(["g"] if case["exog"] else None), order=case["order"], intercept=case["intercept"])
+
+
+def rv_sim(m, case, db) -> str:
+    names = [f"y{i}" for i in range(case["n"])]
+    try:
+        s = m.simulate(db, t0() + case["T"] >> t0() + case["T"] + 3)
+        return _db_digest(s, names)
+    except Exception as e:
+        return "raises:" + type(e).__name__
+
+
+def rv_pub(m, case, db) -> dict:
+    out = {"nv": m.num_variants, "names": (tuple(m.get_endogenous_names()), tuple(m.get_exogenous_names()), tuple(m.get_residual_names())),
+           "order": m.order, "intercept": m.has_intercept}
+    try:
+        ss = m.get_system_matrices(unpack_singleton=False)
+        out["system"] = tuple(_digest(s.A, s.B, s.c, s.cov_residuals) for s in ss)
+        out["eig"] = _digest(m.get_eigenvalues(unpack_singleton=False), m.get_stability(unpack_singleton=False),
+                             m.get_max_abs_eigenvalue(unpack_singleton=False))
+        out["mean"] = _digest(m.get_mean(unpack_singleton=False))
+        out["acov"] = _digest(m.get_acov(up_to_order=1, unpack_singleton=False))
+        out["companion"] = tuple(_digest(s.T, s.P, s.K) for s in m.get_companion_matrices(unpack_singleton=False))
+    except Exception as e:
+        out["system"] = "raises:" + type(e).__name__
+    out["sim"] = rv_sim(m, case, db)
+    return out
+
+
+def rv_gen_op(rng, handles, case):
+    h = rng.randint(0, len(handles) - 1)
+    m = handles[h]
+    nv = max(1, m.num_variants)
+    can = len(handles) < 5
+    kind = rng.weighted([("estimate", 4), ("alter", 2), ("copy", 2.5 if can else 0), ("roundtrip", 3 if can else 0), ("view", 1.5 if can else 0)])
+    if kind == "estimate":
+        return {"op": "estimate", "h": h, "from": rng.randint(case["order"], 8), "dof": rng.chance(0.4), "omit": rng.chance(0.8),
+                "nv": rng.choice([None, None, 1, case["ncol"]])}
+    if kind == "alter":
+        return {"op": "alter", "h": h, "n": rng.choice([1, 2, 3, nv + 1])}
+    if kind == "copy":
+        return {"op": "copy", "h": h}
+    if kind == "roundtrip":
+        return {"op": "roundtrip", "h": h, "via": rng.weighted([("pickle", 3), ("deepcopy", 2), ("dill", 2), ("saveload", 1)])}
+    return {"op": "view", "h": h, "k": rng.randint(0, nv - 1)}
+
+
+def rv_apply(ctx, handles, fam, op, case, db):
+    m = handles[op["h"]]
+    k = op["op"]
+    if k == "estimate":
+        span = t0() + op["from"] >> t0() + case["T"] - 1
+        est = m.estimate(db, span, dof_correction=op["dof"], omit_missing=op["omit"], num_variants=op["nv"])
+        return _db_digest(est, [f"res_y{i}" for i in range(case["n"])])
+    if k == "alter":
+        m.alter_num_variants(op["n"])
+    elif k == "copy":
+        handles.append(m.copy()); fam.append(max(fam) + 1)
+    elif k == "roundtrip":
+        handles.append(_roundtrip(m, op["via"])); fam.append(max(fam) + 1)
+    elif k == "view":
+        handles.append(m[op["k"]] if hasattr(type(m), "__getitem__") else m.get_variant(op["k"])); fam.append(fam[op["h"]])
+    return None
+
+
+# objects that `RedVAR.copy` shares on purpose and that no public operation mutates in place
+def rv_share_allowed(type_name: str, path: str) -> bool:
+    return "/_invariant" in path or path.endswith("/_companion_T") or "/fitted_periods" in path
+
+
+def rv_walk(ctx: Ctx, case, handles, fam, where):
+    H = _H()
+    reaches = [H.mutable_reach(m) for m in handles]
+    ctx.count("heap_walks")
+    for i in range(len(handles)):
+        for j in range(i + 1, len(handles)):
+            if fam[i] == fam[j]:
+                continue
+            common = [k for k in reaches[i] if k != "__keep__" and k in reaches[j]]
+            bad = [k for k in common if not (rv_share_allowed(*reaches[i][k]) and rv_share_allowed(*reaches[j][k]))]
+            if common and not bad:
+                ctx.count("redvar_shared_but_never_mutated_objects", len(common))
+            if bad:
+                # RedVAR has no operation that writes into a variant, a system or an array in place (estimate rebinds
+                # `_variants`), so extra sharing is not by itself a violation of the statement: it is reported as a change of the
+                # expected reference structure (a tie that no longer checks); the mutate-and-observe oracle supplies a replay when
+                # the sharing is observable (e.g. a shared `_variants` list, which alter_num_variants appends to in place)
+                k = bad[0]
+                ctx.disagree("redvar-structure", case,
+                             f"{where}: handles {i} and {j} (different copy families) both reach a {reaches[i][k][0]} via {reaches[i][k][1]} and {reaches[j][k][1]}",
+                             "fresh in every copy family except the invariant, the cached _companion_T and the fitted periods")
+                return
+
+
+def rv_getter_write_observation(ctx: Ctx):
+    """the one way to observe what RedVAR.copy shares: write into the matrix a getter hands out (outside the statement's
+    operations; it corrupts the cache of a single model just as well).  Counted so that notes/C20.md stays truthful."""
+    case = {"n": 1, "order": 1, "intercept": True, "exog": False, "T": 30, "ncol": 1, "missing": False, "data_seed": 3}
+    db = rv_data(case)
+    v = rv_make(case)
+    v.estimate(db, t0() + 1 >> t0() + 29)
+    v.get_companion_matrices()
+    c, d = v.copy(), _copy.deepcopy(v)
+    v.get_companion_matrices().T[0, 0] = 99.0
+    ctx.count("redvar_copy_sees_write_into_returned_companion_T", int(c.get_companion_matrices().T[0, 0] == 99.0))
+    ctx.count("redvar_deepcopy_sees_write_into_returned_companion_T", int(d.get_companion_matrices().T[0, 0] == 99.0))
+    ctx.count("redvar_copy_system_A_after_that_write_unchanged", int(_digest(c.get_system_matrices().A) == _digest(d.get_system_matrices().A)))
+
+
+# ---------------------------------------------------------------------------------------
+# the common history runner
+# ---------------------------------------------------------------------------------------
+
+def gen_other_case(rng) -> dict:
+    if rng.chance(0.5):
+        return {"kind": "other", "model": "sequential", "ops": [], "n_ops": rng.randint(5, 12), "seed": rng.next() % (1 << 30)}
+    order = rng.choice([1, 1, 2])
+    return {"kind": "other", "model": "redvar", "n": rng.randint(1, 3), "order": order, "intercept": rng.chance(0.75), "exog": rng.chance(0.4),
+            "T": rng.randint(30, 44), "ncol": rng.choice([1, 1, 2]), "missing": rng.chance(0.3), "data_seed": rng.next() % (1 << 30),
+            "ops": [], "n_ops": rng.randint(4, 10), "seed": rng.next() % (1 << 30)}
 
 
 def other_case(ctx: Ctx, case: dict):
-    from . import c20 as H
-    m = ir.Sequential.from_string(SRC)
-    m.assign(c0=case["c0"], c1=case["c1"])
-    m.alter_num_variants(case["nv"])
-    ctx.evaluations += 1
-    try:
-        pickle.dumps(m)
-        ctx.count("sequential_plain_pickle_ok")
-    except Exception:
-        ctx.count("sequential_plain_pickle_unsupported")
-    via = case["via"]
-    if via == "copy":
-        c = m.copy()
-    elif via == "deepcopy":
-        c = _copy.deepcopy(m)
+    """runs the recorded ops of `case`; generates the missing ones (up to n_ops) from case['seed']"""
+    from .common import Rng
+    if "model" not in case:      # first-round corpus/replay format
+        case = {"kind": "other", "model": "sequential", "ops": [], "n_ops": 6, "seed": 1}
+    seq = case["model"] == "sequential"
+    rng = Rng(case["seed"])
+    db = None
+    if seq:
+        handles, fam = [seq_make()], [0]
+        pub = seq_pub
     else:
-        import dill
-        c = dill.loads(dill.dumps(m))
-    ctx.count("sequential_" + via)
-    if _pars(c) != _pars(m):
-        ctx.fail("sequential-copy-not-equivalent", case, f"{via}: parameters/description differ from the source")
-    a, b = _sim(m), _sim(c)
-    if a != b:
-        ctx.fail("sequential-copy-behaves-differently", case, f"{via}: simulation differs from the original's")
-    H.walk_oracle(ctx, case, [m, c], [0, 1], f"Sequential {via}")
-    before = _pars(m)
-    c.assign(c0=case["c0_new"])
-    c.set_description("changed")
-    c.alter_num_variants(case["nv"] + 1)
-    if _pars(m) != before or _sim(m) != a:
-        ctx.fail("sequential-mutation-leaks", case, f"{via}: assign/set_description/alter_num_variants on the copy changed the original")
-    before_c = _pars(c)
-    m.assign(c1=case["c1"] + 1.0)
-    if _pars(c) != before_c:
-        ctx.fail("sequential-mutation-leaks", case, f"{via}: assign on the original changed the copy")
+        db = rv_data(case)
+        m = rv_make(case)
+        m.estimate(db, t0() + case["order"] >> t0() + case["T"] - 1)
+        handles, fam = [m], [0]
+        pub = lambda x: rv_pub(x, case, db)
+    ops = case["ops"]
+    i = 0
+    site = "sequential" if seq else "redvar"
+    while i < max(len(ops), case.get("n_ops", 0)):
+        if i >= len(ops):
+            ops.append(seq_gen_op(rng, handles) if seq else rv_gen_op(rng, handles, case))
+        op = ops[i]; i += 1
+        if op["h"] >= len(handles):
+            continue
+        tgt = op["h"]
+        creating = op["op"] in ("copy", "roundtrip", "view")
+        before = [pub(m) if (creating or fam[k] != fam[tgt]) else None for k, m in enumerate(handles)]
+        nh = len(handles)
+        ctx.count(f"{site}_op_{op['op']}")
+        snap = {"kind": "other", **{k: v for k, v in case.items() if k not in ("ops", "n_ops")}, "ops": list(ops[:i]), "n_ops": 0}
+        try:
+            ret = seq_apply(ctx, handles, fam, op) if seq else rv_apply(ctx, handles, fam, op, case, db)
+        except Exception as e:
+            if len(handles) != nh:
+                del handles[nh:]; del fam[nh:]
+            ctx.count(f"{site}_op_raises:{type(e).__name__}")
+            # an operation that raises must still leave the other families alone (checked below)
+            ret = None
+        ctx.evaluations += 1
+        for k in range(nh):
+            if before[k] is None:
+                continue
+            now = pub(handles[k])
+            if now != before[k]:
+                ctx.fail(f"{site}-mutation-leaks", snap,
+                         f"op #{i - 1} {op} on handle {tgt} (family {fam[tgt]}) changed {_H().pub_diff(before[k], now)} of handle {k} (family {fam[k]})")
+        if len(handles) > nh and op["op"] in ("copy", "roundtrip"):
+            a, b = pub(handles[tgt]), pub(handles[-1])
+            if a != b:
+                ctx.fail(f"{site}-copy-not-equivalent", snap, f"op #{i - 1} {op}: the new model differs from its source in {_H().pub_diff(a, b)}")
+            if not seq:
+                # the same re-estimate on both returns the same residuals and leaves both with the same system
+                x, y = handles[tgt].copy(), handles[-1].copy()
+                span = t0() + case["order"] + 1 >> t0() + case["T"] - 1
+                try:
+                    rx = _db_digest(x.estimate(db, span), [f"res_y{j}" for j in range(case["n"])])
+                    ry = _db_digest(y.estimate(db, span), [f"res_y{j}" for j in range(case["n"])])
+                    if rx != ry or rv_pub(x, case, db) != rv_pub(y, case, db):
+                        ctx.fail("redvar-copy-behaves-differently", snap, f"op #{i - 1} {op}: re-estimating the new model and its source gives different residuals/systems")
+                except Exception as e:
+                    ctx.count("redvar_reestimate_raises:" + type(e).__name__)
+            if seq:
+                _H().walk_oracle(ctx, snap, handles, fam, f"Sequential after op #{i - 1}")
+            else:
+                rv_walk(ctx, snap, handles, fam, f"RedVAR after op #{i - 1}")
+    if len(handles) >= 2 and len(set(fam)) >= 2:
+        ctx.nontriv(site + ":" + repr([(o["op"], o["h"]) for o in ops]) + str(case.get("data_seed", "")))
 
 
 def other_models_stream(ctx: Ctx, n: int):
     rng = ctx.rng.fork("other")
+    rv_getter_write_observation(ctx)
     for i in range(n):
-        other_case(ctx, gen_other_case(rng.fork(i)))
+        case = gen_other_case(rng.fork(i))
+        other_case(ctx, case)
+        if i < 2:
+            ctx.sample({k: v for k, v in case.items() if k != "n_ops"})
